@@ -328,6 +328,260 @@ example : decode exE ⟨0, [2, 1, 0, 1]⟩ = .ok [.member 0 2, .member 0 1, .mem
     (⟨0, [2, 1, 0, 1]⟩ : EnumArray).take [3, 3, 0] = .ok ⟨0, [1, 1, 2]⟩ ∧
     decodeToStr exE ⟨0, [1, 1, 2]⟩ = .ok ["a", "a", "c"] := by decide
 
+/-! ## The operators of `EnumArray`: what `housing == Housing.owner` computes -/
+
+/-- **Comparing an encoded array with a member is the pointwise test "this element is that
+member"**: for every accepted input, `encode(x) == m` is true exactly at the positions whose
+element designates `m`, `!=` is its complement, and both agree with a comparison of the decoded
+members. -/
+theorem C15_eq_member (e : Enumeration) (hnd : e.names.Nodup) (x : Input) (hwf : x.WF e)
+    (hown : x.NotForeignArray e) (hok : ¬ x.Rejected e) (m : Nat) :
+    ∃ a ms, encode e x = .ok a ∧ decode e a = .ok ms ∧
+      eqOp e.size a (.elem (.member e.cid m)) = .ok (.vec (x.elems.map fun el => el.index e == m)) ∧
+      neOp e.size a (.elem (.member e.cid m)) = .ok (.vec (x.elems.map fun el => !(el.index e == m))) ∧
+      eqOp e.size a (.elem (.member e.cid m)) = .ok (.vec (ms.map fun d => d == Elem.member e.cid m)) := by
+  obtain ⟨a, henc, hown', hidx, hdec, _⟩ := C15_decode_encode e hnd x hwf hown hok
+  have heq : eqOp e.size a (.elem (.member e.cid m))
+      = .ok (.vec (x.elems.map fun el => el.index e == m)) := by
+    simp only [eqOp, hown', if_true, hidx, List.map_map, Function.comp_def]
+  refine ⟨a, _, henc, hdec, heq, ?_, ?_⟩
+  · simp only [neOp, heq, CmpRes.not, List.map_map, Function.comp_def]
+  · rw [heq, List.map_map]
+    congr 2
+    apply List.map_congr_left
+    intro el _
+    show (Elem.index e el == m) = (Elem.member e.cid (Elem.index e el) == Elem.member e.cid m)
+    rw [Bool.eq_iff_iff, beq_iff_eq, beq_iff_eq]
+    exact ⟨fun h => by rw [h], fun h => by injection h⟩
+
+example : encode exE (.seq [.str "c", .str "a", .str "c"]) = .ok ⟨0, [2, 1, 2]⟩ ∧
+    eqOp 3 ⟨0, [2, 1, 2]⟩ (.elem (.member 0 2)) = .ok (.vec [true, false, true]) ∧
+    neOp 3 ⟨0, [2, 1, 2]⟩ (.elem (.member 0 2)) = .ok (.vec [false, true, false]) := by decide
+
+/-- the same for any array that decodes (whatever produced it): `a == m` tests the decoded
+members; a member of ANOTHER enumeration equals nothing; an integer is compared with the indices;
+a string, a float, `None` equal nothing; none of these comparisons raises and the answer has one
+element per element of the array. -/
+theorem C15_eq_scalar (e : Enumeration) (n : Nat) (a : EnumArray) (ho : a.owner = e.cid) :
+    (∀ ms m, decode e a = .ok ms →
+      eqOp n a (.elem (.member e.cid m)) = .ok (.vec (ms.map fun d => d == Elem.member e.cid m))) ∧
+    (∀ c i, c ≠ a.owner → eqOp n a (.elem (.member c i)) = .ok (.vec (List.replicate a.idx.length false))) ∧
+    (∀ v : Int, eqOp n a (.elem (.int v)) = .ok (.vec (a.idx.map fun (j : Nat) => decide ((j : Int) = v)))) ∧
+    (∀ s, eqOp n a (.elem (.str s)) = .ok (.vec (List.replicate a.idx.length false))) ∧
+    eqOp n a (.elem .other) = .ok (.vec (List.replicate a.idx.length false)) ∧
+    eqOp n a .none_ = .ok (.scalar false) ∧ neOp n a .none_ = .ok (.scalar true) ∧
+    (∀ x : Elem, ∃ bs, eqOp n a (.elem x) = .ok (.vec bs) ∧ bs.length = a.idx.length) := by
+  have hrep : ∀ l : List Nat, (l.map fun _ => false) = List.replicate l.length false := by
+    intro l; induction l with
+    | nil => rfl
+    | cons _ _ ih => simp [List.replicate_succ, ih]
+  refine ⟨?_, ?_, ?_, ?_, ?_, rfl, rfl, ?_⟩
+  · intro ms m hd
+    obtain ⟨_, hms⟩ := decode_ok_inv hd
+    subst hms
+    simp only [eqOp, ho, if_true, List.map_map, Function.comp_def]
+    congr 2
+    apply List.map_congr_left
+    intro j _
+    rw [Bool.eq_iff_iff, beq_iff_eq, beq_iff_eq]
+    exact ⟨fun h => by rw [h], fun h => by injection h⟩
+  · intro c i hc
+    simp only [eqOp, if_neg hc, hrep]
+  · intro v
+    simp only [eqOp]
+    rfl
+  · intro s; simp only [eqOp, hrep]
+  · simp only [eqOp, hrep]
+  · intro x
+    cases x with
+    | int v => exact ⟨_, rfl, by simp⟩
+    | str s => exact ⟨_, rfl, by simp⟩
+    | other => exact ⟨_, rfl, by simp⟩
+    | member c i =>
+      by_cases hc : c = a.owner
+      · exact ⟨a.idx.map (fun j => j == i), by simp only [eqOp, if_pos hc], by simp⟩
+      · exact ⟨a.idx.map (fun _ => false), by simp only [eqOp, if_neg hc], by simp⟩
+
+example : decode exE ⟨0, [2, 1, 2]⟩ = .ok [.member 0 2, .member 0 1, .member 0 2] ∧
+    eqOp 3 ⟨0, [2, 1, 2]⟩ (.elem (.member 1 2)) = .ok (.vec [false, false, false]) ∧
+    eqOp 3 ⟨0, [2, 1, 2]⟩ (.elem (.int 1)) = .ok (.vec [false, true, false]) ∧
+    eqOp 3 ⟨0, [2, 1, 2]⟩ (.elem (.int (-1))) = .ok (.vec [false, false, false]) := by decide
+
+/-- **`!=` is the complement of `==`**, operand by operand, errors included; complementing twice
+gives `==` back. -/
+theorem C15_ne_complement (n : Nat) (a : EnumArray) (o : Operand) :
+    (∀ r, eqOp n a o = .ok r → neOp n a o = .ok r.not) ∧
+    (∀ m, eqOp n a o = .error m → neOp n a o = .error m) ∧
+    (∀ r : CmpRes, r.not.not = r) := by
+  refine ⟨fun r h => by simp only [neOp, h], fun m h => by simp only [neOp, h], ?_⟩
+  intro r
+  cases r with
+  | vec bs => simp [CmpRes.not, List.map_map, Function.comp_def]
+  | scalar b => simp [CmpRes.not]
+
+/-- **Two encoded arrays of the same length are compared index by index** (whatever their
+enumerations), symmetrically; an array equals itself everywhere; lengths that numpy cannot
+broadcast (different, neither of them 1) raise. -/
+theorem C15_eq_arrays (n n' : Nat) (a b : EnumArray) :
+    (a.idx.length = b.idx.length →
+      eqOp n a (.arr b) = .ok (.vec (List.zipWith (fun i j => i == j) a.idx b.idx)) ∧
+      eqOp n a (.arr b) = eqOp n' b (.arr a)) ∧
+    eqOp n a (.arr a) = .ok (.vec (List.replicate a.idx.length true)) ∧
+    (a.idx.length ≠ b.idx.length → a.idx.length ≠ 1 → b.idx.length ≠ 1 →
+      ∃ m, eqOp n a (.arr b) = .error m) := by
+  refine ⟨fun h => ?_, ?_, ?_⟩
+  · have h1 : eqOp n a (.arr b) = .ok (.vec (List.zipWith (fun i j => i == j) a.idx b.idx)) := by
+      simp only [eqOp, bcastEq_same _ _ _ h]
+    refine ⟨h1, ?_⟩
+    rw [h1]
+    simp only [eqOp, bcastEq_same _ _ _ h.symm]
+    congr 2
+    generalize a.idx = xs at h
+    generalize b.idx = ys at h
+    induction xs generalizing ys with
+    | nil => cases ys <;> simp
+    | cons x xs ih =>
+      cases ys with
+      | nil => simp
+      | cons y ys =>
+        simp only [List.zipWith_cons_cons, List.cons.injEq]
+        refine ⟨by rw [Bool.beq_comm], ih ys (by simpa using h)⟩
+  · simp only [eqOp, bcastEq_same _ _ _ rfl]
+    congr 2
+    generalize a.idx = xs
+    induction xs with
+    | nil => rfl
+    | cons x xs ih =>
+      simp only [List.zipWith_cons_cons, List.length_cons, List.replicate_succ, ih, beq_self_eq_true]
+  · intro hne ha hb
+    simp only [eqOp, bcastEq, if_neg hne]
+    match hx : a.idx, hy : b.idx with
+    | xs, [y] => rw [hy] at hb; exact absurd rfl hb
+    | [x], [] => rw [hx] at ha; exact absurd rfl ha
+    | [x], _ :: _ :: _ => rw [hx] at ha; exact absurd rfl ha
+    | [], [] => rw [hx, hy] at hne; exact absurd rfl hne
+    | [], _ :: _ :: _ => exact ⟨_, rfl⟩
+    | _ :: _ :: _, [] => exact ⟨_, rfl⟩
+    | _ :: _ :: _, _ :: _ :: _ => exact ⟨_, rfl⟩
+
+example : eqOp 3 ⟨0, [2, 1, 2]⟩ (.arr ⟨1, [2, 2, 2]⟩) = .ok (.vec [true, false, true]) ∧
+    eqOp 3 ⟨0, [2, 1, 2]⟩ (.arr ⟨0, [1]⟩) = .ok (.vec [false, true, false]) ∧
+    (∃ m, eqOp 3 ⟨0, [2, 1, 2]⟩ (.arr ⟨0, [1, 2]⟩) = .error m) := ⟨by decide, by decide, ⟨_, rfl⟩⟩
+
+/-- **Comparison with the enumeration class itself** (`array == Housing`): for a non-empty array
+of valid indices whose greatest index is `mx`, the array is compared (numpy broadcasting) with
+`0, 1, …, mx`; an empty array raises (`max()` of nothing). -/
+theorem C15_eq_class (n : Nat) (a : EnumArray) (k : Nat) (hv : ∀ i ∈ a.idx, i < n) :
+    (a.idx = [] → ∃ m, eqOp n a (.cls a.owner k) = .error m) ∧
+    (a.idx ≠ [] → ∃ mx, mx ∈ a.idx ∧ (∀ j ∈ a.idx, j ≤ mx) ∧
+      (∀ bs, bcastEq (fun i j => i == j) a.idx (List.range (mx + 1)) = .ok bs →
+        eqOp n a (.cls a.owner k) = .ok (.vec bs)) ∧
+      (∀ m, bcastEq (fun i j => i == j) a.idx (List.range (mx + 1)) = .error m →
+        eqOp n a (.cls a.owner k) = .error m) ∧
+      (a.idx.length = mx + 1 →
+        eqOp n a (.cls a.owner k) = .ok (.vec (List.zipWith (fun i j => i == j) a.idx (List.range (mx + 1)))))) := by
+  constructor
+  · intro h
+    simp only [eqOp, if_true, h, maxIdx]
+    exact ⟨_, rfl⟩
+  · intro h
+    obtain ⟨mx, hmx⟩ := maxIdx_isSome a.idx h
+    obtain ⟨hmem, hle⟩ := maxIdx_spec a.idx mx hmx
+    have hcl : ∀ r, bcastEq (fun i j => i == j) a.idx (List.range (mx + 1)) = r →
+        eqOp n a (.cls a.owner k) = match r with
+          | .error m => .error m
+          | .ok bs => .ok (.vec bs) := by
+      intro r hr
+      simp only [eqOp, if_true, hmx, range_filter_le n mx (hv mx hmem), hr]
+      cases r <;> rfl
+    refine ⟨mx, hmem, hle, fun bs hb => hcl _ hb, fun m hm => hcl _ hm, fun hlen => ?_⟩
+    exact hcl _ (bcastEq_same _ _ _ (by simpa using hlen))
+
+example : eqOp 3 ⟨0, [2, 1, 2]⟩ (.cls 0 3) = .ok (.vec [false, true, true]) ∧
+    eqOp 3 ⟨0, [1]⟩ (.cls 0 3) = .ok (.vec [false, true]) ∧
+    (∃ m, eqOp 3 ⟨0, []⟩ (.cls 0 3) = .error m) := ⟨by decide, by decide, ⟨_, rfl⟩⟩
+
+/-- **Arithmetic, ordering and bitwise operators on an `EnumArray` raise**, whatever the operands:
+the only operations allowed are `==` and `!=`. -/
+theorem C15_forbidden_ops_raise (op : ForbiddenOp) (a : EnumArray) (o : Operand) :
+    ∃ m, forbiddenOp op a o = .error m := ⟨_, rfl⟩
+
+example : forbiddenOp .add ⟨0, [2, 1]⟩ (.elem (.int 1)) = .error "TypeError: Forbidden operation" := rfl
+
+/-! ## Enumerations declared with aliases -/
+
+/-- **A class body with aliases declares the enumeration of its canonical members.**  For bindings
+`name = value` with distinct names, a name bound to an already used value being an alias:
+the names table (`_member_names_`) has no repetition, one entry per distinct value; every name,
+canonical or alias, denotes a member whose index is within the table and whose value is the value
+the name is bound to; and **the index `Enum.__init__` gives a canonical member is its position in
+the names table** (so names, members and indices designate the same member, whatever aliases are
+declared before it).  A name that is not in the table — an alias — is not a member name:
+`encode` refuses it like any unknown name. -/
+theorem C15_declaration_with_aliases (cid : Nat) (bs : List (String × Nat))
+    (hnd : (bs.map Prod.fst).Nodup) :
+    (declared cid bs).names.Nodup ∧ (declare bs).values.Nodup ∧
+    (declare bs).values.length = (declared cid bs).size ∧
+    (declare bs).members.map Prod.fst = bs.map Prod.fst ∧
+    (∀ nm v, (nm, v) ∈ bs → ∃ i, memberOf? bs nm = some i ∧ i < (declared cid bs).size ∧
+      (declare bs).values[i]? = some v) ∧
+    (∀ k nm, (declared cid bs).names[k]? = some nm → memberOf? bs nm = some k) ∧
+    (∀ nm, nm ∉ (declared cid bs).names → ∀ xs, Elem.str nm ∈ xs →
+      ∃ m, encode (declared cid bs) (.seq xs) = .error m) := by
+  have inv := declInv_declare bs hnd
+  have hmnd : ((declare bs).members.map Prod.fst).Nodup := by rw [inv.mnames]; exact hnd
+  refine ⟨inv.nnd, inv.vnd, inv.len.symm, inv.mnames, ?_, ?_, ?_⟩
+  · intro nm v hmem
+    have hnm : nm ∈ (declare bs).members.map Prod.fst := by
+      rw [inv.mnames]; exact List.mem_map.mpr ⟨_, hmem, rfl⟩
+    obtain ⟨⟨nm', i⟩, hmi, hnm'⟩ := List.mem_map.mp hnm
+    simp only at hnm'
+    subst hnm'
+    obtain ⟨w, hw1, hw2⟩ := inv.val _ i hmi
+    have hwv : w = v := nodup_fst_unique hnd hw1 hmem
+    subst hwv
+    refine ⟨i, ?_, ?_, hw2⟩
+    · unfold memberOf?
+      rw [find?_fst_of_mem hmnd hmi]; rfl
+    · show i < (declare bs).names.length
+      rw [inv.len]
+      rcases Nat.lt_or_ge i (declare bs).values.length with h | h
+      · exact h
+      · rw [List.getElem?_eq_none h] at hw2; cases hw2
+  · intro k nm hk
+    have := inv.canon k nm hk
+    unfold memberOf?
+    rw [find?_fst_of_mem hmnd this]; rfl
+  · intro nm hnm xs hxs
+    exact C15_nonmember_raises (declared cid bs) (.seq xs) (fun a h => by cases h) (.str nm) hxs hnm
+
+/-- A = 'x'; B = 'x' (alias of A); C = 'y'; D = 'z'; E = 'y' (alias of C): three members A, C, D with
+indices 0, 1, 2; `cls['B']` is A, `cls['E']` is C; the name 'B' is not encoded -/
+example : (declare [("A", 7), ("B", 7), ("C", 8), ("D", 9), ("E", 8)]).names = ["A", "C", "D"] ∧
+    (declare [("A", 7), ("B", 7), ("C", 8), ("D", 9), ("E", 8)]).members
+      = [("A", 0), ("B", 0), ("C", 1), ("D", 2), ("E", 1)] ∧
+    memberOf? [("A", 7), ("B", 7), ("C", 8), ("D", 9), ("E", 8)] "E" = some 1 ∧
+    encode (declared 0 [("A", 7), ("B", 7), ("C", 8), ("D", 9), ("E", 8)]) (.seq [.str "D", .str "C"]) = .ok ⟨0, [2, 1]⟩ ∧
+    encode (declared 0 [("A", 7), ("B", 7), ("C", 8), ("D", 9), ("E", 8)]) (.seq [.str "A", .str "B"])
+      = .error "EnumMemberNotFoundError" := by decide
+
+/-- **Round trip for an enumeration declared with aliases**: the canonical members are the
+members; every accepted input decodes to the members (names) its elements designate. -/
+theorem C15_decode_encode_declared (cid : Nat) (bs : List (String × Nat)) (hnd : (bs.map Prod.fst).Nodup)
+    (x : Input) (hwf : x.WF (declared cid bs)) (hown : x.NotForeignArray (declared cid bs))
+    (hok : ¬ x.Rejected (declared cid bs)) :
+    ∃ a, encode (declared cid bs) x = .ok a ∧ a.owner = cid ∧
+      a.idx = x.elems.map (Elem.index (declared cid bs)) ∧ (∀ i ∈ a.idx, i < (declare bs).values.length) ∧
+      decode (declared cid bs) a = .ok (x.elems.map fun el => Elem.member cid (el.index (declared cid bs))) ∧
+      decodeToStr (declared cid bs) a
+        = .ok (x.elems.map fun el => (declare bs).names.getD (el.index (declared cid bs)) "") := by
+  obtain ⟨hn, _, hl, _⟩ := C15_declaration_with_aliases cid bs hnd
+  obtain ⟨a, h1, h2, h3, h4, h5⟩ := C15_decode_encode (declared cid bs) hn x hwf hown hok
+  refine ⟨a, h1, h2, h3, ?_, h4, h5⟩
+  intro i hi
+  rw [hl]
+  exact (C15_encoded_valid (declared cid bs) x a hwf hown h1).2 i hi
+
 end OFCore
 
 /-! axiom audit (⊆ propext, Classical.choice, Quot.sound) -/
@@ -344,3 +598,11 @@ end OFCore
 #print axioms OFCore.C15_empty_accepted
 #print axioms OFCore.C15_scalar_array_raises
 #print axioms OFCore.C15_decode_take
+#print axioms OFCore.C15_eq_member
+#print axioms OFCore.C15_eq_scalar
+#print axioms OFCore.C15_ne_complement
+#print axioms OFCore.C15_eq_arrays
+#print axioms OFCore.C15_eq_class
+#print axioms OFCore.C15_forbidden_ops_raise
+#print axioms OFCore.C15_declaration_with_aliases
+#print axioms OFCore.C15_decode_encode_declared
